@@ -26,3 +26,16 @@ print('| id | engine | level | last run | known findings | fix commits | own mut
 print('|---|---|---|---|---|---|---|---|---|')
 for r in rows:
     print(f"| {r[0]} | {r[1]} | {r[2]} | {r[3]}: {r[4]} | {r[5]} | {' '.join(r[6]) or '-'} | {len(r[7])}: {', '.join(r[7])[:160]} | {', '.join(s+('=caught' if c else '=MISSED') for s,c in r[8]) or '-'} | {'yes' if r[9] else 'no'} |")
+
+print()
+print('### Findings on ipfs/boxo (from known_findings.json and per-harness fragments)')
+print()
+seen=set()
+for f in sorted(kf,key=lambda f:(f['property'],f.get('status',''))):
+    key=(f['property'],f.get('status'),f['what'])
+    if key in seen: continue
+    seen.add(key)
+    st=f.get('status')
+    w=f['what']
+    if st=='fixed': print(f"* **{f['property']}** repaired by `{f.get('commit','?')}` — {w.split(' ',3)[-1] if w.startswith('fixed:') else w}")
+    else: print(f"* **{f['property']}** recorded (not repaired) — {w}")
